@@ -43,10 +43,9 @@ Ltac ru_cases i :=
   cbn [ru_nfailed ru_draining ru_npending ru_miss_targets ru_miss_dirs ru_glob_warn ru_glob_err];
   rewrite ?(eqb0 np).
 
-(* FAILED bit: exactly what the code does. *)
+(* FAILED bit: an attached FAILED step, a glob match that a step builds, or an invalid target. *)
 Lemma failed_bit_exact : forall inv i,
-  has_bit (serve_rc inv i) rc_FAILED =
-  inv || (0 <? ru_nfailed i) || (glob_check_reached i && (0 <? ru_glob_err i)).
+  has_bit (serve_rc inv i) rc_FAILED = inv || (0 <? ru_nfailed i) || (0 <? ru_glob_err i).
 Proof.
   intros inv i. ru_cases i.
   destruct inv, (0 <? nf), dr, (0 <? np), (0 <? mt), (0 <? md), (0 <? gw), (0 <? ge); reflexivity.
@@ -139,54 +138,49 @@ Definition exit_status_as_stated (inv : bool) (i : ru_in) : Prop :=
      (has_bit rc rc_PENDING = true <-> (ru_draining i = false /\ 0 < ru_npending i))) /\
   (rc = 0 -> inv = false /\ nothing_wrong i).
 
-(* The glob error is masked: it exists, nothing else sets FAILED, and the check is not reached. *)
-Definition glob_error_masked (inv : bool) (i : ru_in) : Prop :=
-  inv = false /\ 0 < ru_glob_err i /\ ru_nfailed i = 0 /\
-  (ru_draining i = true \/ 0 < ru_npending i \/ 0 < ru_miss_targets i \/ 0 < ru_miss_dirs i).
-
-Lemma failed_clause_b : forall inv a d p t td e : bool,
-  ((inv || a || (negb a && negb d && negb p && negb t && negb td && e)) = true
-     <-> (a = true \/ e = true \/ inv = true))
-  <-> ~ (inv = false /\ e = true /\ a = false /\ (d = true \/ p = true \/ t = true \/ td = true)).
-Proof.
-  intros inv a d p t td e.
-  destruct inv; [cbn; intuition congruence|].
-  destruct a; [cbn; intuition congruence|].
-  destruct e; [|cbn; rewrite !andb_false_r; intuition congruence].
-  destruct d, p, t, td; cbn; intuition congruence.
-Qed.
-
 Lemma pending_clause_b : forall inv d p : bool,
   inv = false -> ((negb inv && (negb d && p)) = true <-> d = false /\ p = true).
 Proof. intros inv d p ->. destruct d, p; cbn; intuition congruence. Qed.
 
-Lemma as_stated_iff_not_masked : forall inv i,
-  exit_status_as_stated inv i <-> ~ glob_error_masked inv i.
+(* The first sentence holds for every build. *)
+Lemma exit_status_full : forall inv i, exit_status_as_stated inv i.
 Proof.
-  intros inv i. unfold exit_status_as_stated, glob_error_masked. cbv zeta.
+  intros inv i. unfold exit_status_as_stated. cbv zeta.
   rewrite (zero_iff_nothing_wrong inv i). rewrite failed_bit_exact.
   assert (Hp : has_bit (serve_rc inv i) rc_PENDING
                = negb inv && (negb (ru_draining i) && (0 <? ru_npending i))).
   { destruct inv; [reflexivity|]. apply pending_bit_exact. }
-  rewrite Hp. clear Hp. unfold glob_check_reached.
-  rewrite <- !ltb0_true, <- (ltb0_false (ru_nfailed i)).
-  pose proof (failed_clause_b inv (0 <? ru_nfailed i) (ru_draining i) (0 <? ru_npending i)
-                (0 <? ru_miss_targets i) (0 <? ru_miss_dirs i) (0 <? ru_glob_err i)) as H1.
-  pose proof (pending_clause_b inv (ru_draining i) (0 <? ru_npending i)) as H2.
-  split.
-  - intros [H _]. apply H1. exact H.
-  - intros H. split; [apply H1; exact H|]. split; [exact H2|tauto].
+  rewrite Hp. clear Hp. rewrite <- !ltb0_true.
+  split; [|split; [apply pending_clause_b|tauto]].
+  rewrite !orb_true_iff. tauto.
 Qed.
 
-(* D7: the literal reading fails on the faithful model. *)
-Lemma exit_status_as_stated_refuted :
-  exists inv i, ~ exit_status_as_stated inv i /\
-    0 < ru_glob_err i /\ has_bit (serve_rc inv i) rc_FAILED = false /\ serve_rc inv i = rc_PENDING.
+(* The pre-fix guard chain (D7) does not satisfy it: a glob error next to a pending step, a missing
+   target or a drain leaves the FAILED bit clear. *)
+Lemma prefix_variant_refuted :
+  (exists i, 0 < ru_glob_err i /\ has_bit (report_unbuilt_prefix i) rc_FAILED = false
+             /\ report_unbuilt_prefix i = rc_PENDING /\ has_bit (report_unbuilt i) rc_FAILED = true) /\
+  (exists i, 0 < ru_glob_err i /\ report_unbuilt_prefix i = rc_WARNING /\ has_bit (report_unbuilt i) rc_FAILED = true) /\
+  (exists i, 0 < ru_glob_err i /\ report_unbuilt_prefix i = rc_DRAINED /\ has_bit (report_unbuilt i) rc_FAILED = true).
 Proof.
-  exists false, (mk_ru 0 false 1 0 0 0 1).
-  split; [|split; [reflexivity|split; reflexivity]].
-  rewrite as_stated_iff_not_masked. intros H. apply H. unfold glob_error_masked. cbn.
-  repeat split; try reflexivity. right; left; reflexivity.
+  split; [|split].
+  - exists (mk_ru 0 false 1 0 0 0 1). repeat split; reflexivity.
+  - exists (mk_ru 0 false 0 1 0 0 1). repeat split; reflexivity.
+  - exists (mk_ru 0 true 0 0 0 0 1). repeat split; reflexivity.
+Qed.
+
+(* The two chains agree whenever no glob match is a built file and the pre-fix code was zero or
+   there is no glob warning either, i.e. the fix changes nothing else. *)
+Lemma prefix_differs_only_on_glob_errors : forall i,
+  ru_glob_err i = 0 -> report_unbuilt i = report_unbuilt_prefix i.
+Proof.
+  intros i He. apply ltb0_false in He. revert He.
+  destruct i as [nf dr np mt md gw ge].
+  unfold report_unbuilt, report_unbuilt_prefix, report_pending_steps, report_missing_targets,
+    report_glob_violations.
+  cbn [ru_nfailed ru_draining ru_npending ru_miss_targets ru_miss_dirs ru_glob_warn ru_glob_err].
+  rewrite ?(eqb0 np). intros ->.
+  destruct (0 <? nf), dr, (0 <? np), (0 <? mt), (0 <? md), (0 <? gw); reflexivity.
 Qed.
 
 (* ------------------------------------------------------------------------------------------ *)
